@@ -256,7 +256,8 @@ pub fn run_line(line: &str, out: &mut String) {
         for (k, s) in subs.iter_mut().enumerate() {
             let n = s.total_wakes();
             if n > s.seen {
-                wk.push(format!("{}x{}", k, n - s.seen));
+                // which subscribers' wakers fired (how often is not part of the property)
+                wk.push(format!("{}", k));
                 s.seen = n;
                 let cur = s.cw.0.load(AO::SeqCst);
                 if s.cur_pending && cur == s.seen_cur {
